@@ -1076,6 +1076,24 @@ def totality_cases(rng, n_random, quick=True):
         rng.shuffle(fam); fam = fam[:480]
     for i in range(0, len(fam), step):
         out.append(({'doc': KIND_DOCS[0], 'exprs': fam[i:i + step], 'merged': True, 'binds': []}, 'hostile-arguments'))
+    # (f) functions that look at DOCUMENT strings (xml:lang values, names, string-values) with non-ASCII and
+    # empty strings on both sides: byte-indexed slicing panics when a cut falls inside a multi-byte character
+    LANGS = ['\u65e5\u672c\u8a9e', '\u00e9l', 'en-US', 'e', '', 'EN', 'x-\U0001F600', '\u00e9-\u00e9']
+    ARGS = ['ja', 'f', 'e', '\u00e9', 'en', '\u65e5', '', 'EN-us', '\u65e5\u672c', 'x', '\U0001F600', 'en-US-x']
+    ldoc = '<r>' + ''.join('<l xml:lang="%s" n="%s">%s<m/></l>' % (v, v, v) for v in LANGS) + '</r>'
+    fam = []
+    for a in ARGS:
+        fam.append("//*[lang('%s')]" % a)
+        fam.append("count(//m[lang('%s')])" % a)
+        fam.append("//l[starts-with(@n, '%s')]" % a)
+        fam.append("//l[contains(., '%s')]" % a)
+        fam.append("//l[substring-before(@n, '%s') = substring-after(., '%s')]" % (a, a))
+        fam.append("//l[translate(@n, '%s', 'xy') = .]" % a)
+        fam.append("//l[substring(@n, 2, 1) = '%s']" % a)
+        fam.append("//l[string-length(@n) = string-length('%s')]" % a)
+        fam.append("//l[normalize-space(.) = '%s']" % a)
+    for i in range(0, len(fam), 18):
+        out.append(({'doc': ldoc, 'exprs': fam[i:i + 18], 'merged': True, 'binds': []}, 'document-strings'))
     # (d) generated expressions with injected failures, substring() included
     g = Gen(rng, {'substring': 0.3, 'unsupported': 1.0, 'ns_axis': 0.1})
     docs = []
@@ -1135,6 +1153,73 @@ def eval_totality(run, n_random=300, isolate_limit=3):
                 break
     report_failures(run, 'C06', failing, oracle=totality_oracle)
     return {'cases': len(items), 'failing': len(failing)}
+
+# ------------------------------------------------------------------ C06: evaluation cost on adversarial shapes
+FINDINGS.update({
+    'D62': 'predicates nested d deep, each of which re-selects k nodes, cost k^d evaluations (naive evaluation, no memoisation): //a[//a[//a[..]]] on eight <a/> takes 9 s at depth 6 (40 characters) and x8 per level',
+})
+
+def predicate_depth(expr):
+    d = best = 0
+    q = None
+    for c in expr:
+        if q:
+            if c == q: q = None
+        elif c in '"\'': q = c
+        elif c == '[':
+            d += 1; best = max(best, d)
+        elif c == ']':
+            d -= 1
+    return best
+
+COST_DOC_FLAT = '<r>' + '<a/>' * 8 + '</r>'
+COST_DOC_DEEP = '<r><a><a><a><a><a><a/><a/></a><a/></a><a/></a><a/></a><a/></a><a/><b/>t</r>'
+
+def cost_cases(quick=True):
+    """(family, document, expression): shapes whose evaluation time must stay polynomial in the expression
+    length.  Every family except nested-predicates is linear or quadratic on the repaired tree."""
+    out = []
+    for k in ((8, 16, 32, 64) if quick else (8, 16, 32, 64, 128, 256)):
+        out.append(('parent-child-%d' % k, COST_DOC_FLAT, '/r' + '/a/..' * k))
+        out.append(('parent-child-count-%d' % k, COST_DOC_FLAT, 'count(/r' + '/a/..' * k + '/a)'))
+    for k in ((4, 8, 16) if quick else (4, 8, 16, 32, 64)):
+        out.append(('descendant-ancestor-%d' % k, COST_DOC_DEEP, '/descendant::*/ancestor::*' * k))
+        out.append(('sibling-pingpong-%d' % k, COST_DOC_FLAT, '/r/a' + '/following-sibling::a/preceding-sibling::a' * k))
+        out.append(('following-preceding-%d' % k, COST_DOC_DEEP, '//a' + '/following::*/preceding::*' * k))
+        out.append(('descendant-chain-%d' % k, COST_DOC_DEEP, '/' + '/descendant-or-self::node()' * k))
+        out.append(('slashslash-chain-%d' % k, COST_DOC_DEEP, '//*' * k))
+        out.append(('filter-pingpong-%d' % k, COST_DOC_FLAT, '(//a)' + '/../a' * k))
+        out.append(('union-%d' % k, COST_DOC_DEEP, ' | '.join(['//a/..'] * k)))
+    out.append(('nested-predicates-3', COST_DOC_FLAT, '//a[' * 3 + '//a' + ']' * 3))
+    out.append(('nested-predicates-8', COST_DOC_FLAT, '//a[' * 8 + '//a' + ']' * 8))
+    out.append(('nested-relative-predicates-2', COST_DOC_FLAT, '/r/a[../a[' * 2 + 'a' + ']]' * 2))
+    out.append(('nested-relative-predicates-5', COST_DOC_FLAT, '/r/a[../a[' * 5 + 'a' + ']]' * 5))
+    return out
+
+def eval_cost(run, limit=10):
+    """C06, cost clause, on the real crates only (the model has no notion of time): each case alone in a
+    process with a time limit; a case that does not finish is a failing input unless it is an instance of
+    the listed finding D62 (predicate nesting >= 4)."""
+    timings = run.extra.setdefault('cost_timings', {})
+    for name, doc, expr in cost_cases(run.tier == 'quick'):
+        case = {'doc': doc, 'exprs': [expr], 'merged': True, 'binds': []}
+        t0 = time.time()
+        out = run_isolated(case, timeout=limit)
+        dt = time.time() - t0
+        run.evaluations += 1
+        run.nontrivial.add(('cost', name))
+        run.count('cost:' + name.rsplit('-', 1)[0])
+        cls = 'hang' if out.get('hang') else 'abort' if out.get('abort') else ('panic' if any(v[0] == 'panic' for v in out.get('R', [])) else 'ok')
+        timings[name] = {'characters': len(expr), 'seconds': round(dt, 3), 'class': cls}
+        if cls == 'ok':
+            continue
+        if cls == 'hang' and predicate_depth(expr) >= 4 and any(e.get('id') == 'D62' and e.get('kind') == 'finding' for e in lib.known_findings('C06')):
+            what, n = run.known_hits.get('D62', (FINDINGS['D62'], 0))
+            run.known_hits['D62'] = (what, n + 1)
+            continue
+        run.failing_inputs.append({'property': 'C06', 'class': cls + ':' + name.rsplit('-', 1)[0],
+                                   'what': 'query does not finish within %d s (%s, expression of %d characters)' % (limit, name, len(expr)) if cls == 'hang' else '%s on %s' % (cls, name),
+                                   'doc': doc, 'exprs': [expr], 'merged': True, 'binds': []})
 
 # ------------------------------------------------------------------ C05: deviations from XPath 1.0 (classifiers)
 FINDINGS.update({
